@@ -6,7 +6,9 @@ import Tulz.Drv.Util
     init <max> <timeout|-> <prog>      prog: sN | c | x | u | tD
     op u                                the owner enters update() (model: updNoop / updBegin)
     tick d                              the owner advanced the clock by d
-    ocs p reap w…                       update()'s m_poolMutex section erased exactly these threads (in pool order)
+    reap w                              update()'s loop reached the finished thread w (every entry before it was skipped: flag clear) and erases it;
+                                        reported at the ENTRY of its join (what workers do while the owner waits there comes after)
+    ocs p                               … also ends update()'s m_poolMutex section: the remaining entries were skipped
     onotify all w…                      also for update()'s notify_all
     exit w                              the thread function of worker w returned (m_isFinished = true): model step exited -> finished
     activeCount n                       getActiveThreadCount()
@@ -44,7 +46,7 @@ def ownerStr : Owner → String
   | .join rem todo => s!"join({joinNat rem})[{todoStr todo}]"
   | .clearQ todo => s!"clearQ[{todoStr todo}]"
   | .updNotify todo => s!"updNotify[{todoStr todo}]"
-  | .updReap todo => s!"updReap[{todoStr todo}]"
+  | .updReap rem todo => s!"updReap({joinNat rem})[{todoStr todo}]"
 
 def pcStr : Pc → String
   | .check => "check"
@@ -88,7 +90,25 @@ def ownerMove (st : State) (x : TPoolX.State) (what : String) (woken : Option Na
     | none => (some y, "ok")
     | some m => (some y, s!"MISMATCH {what}: {m} | {status y}")
 
-def reapSet (x : TPoolX.State) : List Nat := x.pool.filter (isFin x.ws)
+/-- update()'s loop: skip the entries before `target` (their flag must be clear), erase `target` (flag set);
+    `none`: skip every remaining entry and leave the section -/
+def reapUntil (target : Option Nat) : Nat → TPoolX.State → Except String TPoolX.State
+  | 0, _ => .error "reap: out of fuel"
+  | fuel + 1, x =>
+    match x.owner with
+    | .updReap (i :: _) _ =>
+      if some i == target then
+        if isFin x.ws i then
+          (match xstep? x (.owner none) with | some y => .ok y | none => .error "no owner step")
+        else .error s!"update() erased thread {i}, whose completion flag is clear in the model"
+      else
+        if isFin x.ws i then .error s!"update() skipped thread {i}, which has completed in the model"
+        else match xstep? x (.owner none) with | some y => reapUntil target fuel y | none => .error "no owner step"
+    | .updReap [] _ =>
+      match target with
+      | none => (match xstep? x (.owner none) with | some y => .ok y | none => .error "no owner step")
+      | some j => .error s!"update() erased thread {j}, which the model's loop has passed or does not list"
+    | _ => .error "the owner is not in update()'s pool section"
 
 def step (st : State) (args : List String) : State × String :=
   match args with
@@ -132,9 +152,10 @@ def step (st : State) (args : List String) : State × String :=
       match x.owner with
       | .spawn _ => ownerMove st x "ocs p" none (fun y => if y.ws.length == x.ws.length then none else some "model spawns a worker, none observed")
       | .join [] _ => ownerMove st x "ocs p" none (fun _ => none)
-      | .updReap _ =>
-        if (reapSet x).isEmpty then ownerMove st x "ocs p" none (fun _ => none)
-        else mism st x s!"ocs p: update() erased nothing, the model erases {reapSet x}"
+      | .updReap _ _ =>
+        match reapUntil none (x.pool.length + 2) x with
+        | .ok y => (some y, "ok")
+        | .error m => mism st x s!"ocs p: {m}"
       | _ => mism st x "ocs p: the owner has no pool critical section here (or joins are pending)"
     | ["ocs", "p", "spawn", w] =>
       match w.toNat?, x.owner with
@@ -144,13 +165,13 @@ def step (st : State) (args : List String) : State × String :=
           else some s!"observed a spawn of worker {w}, model: pool {x.pool.length}/{x.max}, active {activeCount x}, next index {x.ws.length}")
       | some _, _ => mism st x "ocs p spawn: the owner is not in start()"
       | none, _ => (st, "bad-op")
-    | "ocs" :: "p" :: "reap" :: ws =>
-      match parseNats ws, x.owner with
-      | some ws, .updReap _ =>
-        if ws == reapSet x then ownerMove st x "ocs p reap" none (fun _ => none)
-        else mism st x s!"ocs p reap: update() erased {ws}, the model erases {reapSet x}"
-      | some _, _ => mism st x "ocs p reap: the owner is not in update()'s pool section"
-      | none, _ => (st, "bad-op")
+    | ["reap", w] =>
+      match w.toNat? with
+      | some w =>
+        match reapUntil (some w) (x.pool.length + 2) x with
+        | .ok y => (some y, "ok")
+        | .error m => mism st x s!"reap {w}: {m}"
+      | none => (st, "bad-op")
     | ["onotify", "one"] =>
       match x.owner with
       | .notifyOne _ => ownerMove st x "onotify one (nobody woken)" none (fun _ => none)
